@@ -195,34 +195,50 @@ class C12(Prop):
                     if last: break
             stats["codec_ops"] += len(ops)
             out.append({"name": "codec%d" % c, "ops": ops})
-        # --- sequential queue histories (python keeps a rough picture only to make most ops meaningful)
+        # --- sequential queue histories: the generator simulates the abstract queue (two lists + holdings) so that most ops are
+        #     meaningful and deep states are reached (several blocks queued on both sides, ring wrap-around, Reset/Remove with
+        #     non-trivial contents); about one op in ten is deliberately invalid (foreign block, would-block, overflow)
         for c in range(150 if quick else 2000):
             size = rng.choice([1, 2, 3, 4, 5, 8])
             ops = ["wq create size=%d" % size]
-            nb = 0
             cap = size + 1 if rng.random() < 0.1 else size      # now and then hand in more blocks than the contract allows
-            held = {}      # block -> holder
-            for _ in range(rng.randrange(5, 40)):
+            nb, rq, wq, held = 0, [], [], {}                     # held: block -> thread (0 = reader)
+            for _ in range(rng.randrange(5, 60)):
                 r = rng.random()
-                if r < 0.2 and nb < cap:
+                valid = rng.random() < 0.9
+                if r < 0.15 and nb < cap and (len(rq) < size or not valid):
                     nb += 1; ops.append("wq init b=%d" % nb)
-                elif r < 0.3: ops.append("wq remove")
-                elif r < 0.36: ops.append("wq reset")
-                elif r < 0.4: ops.append("wq complete")
-                elif r < 0.7:
+                    if len(rq) < size: rq.append(nb)
+                elif r < 0.22:
+                    ops.append("wq remove")
+                    if rq: held[rq.pop()] = 0
+                elif r < 0.27:
+                    ops.append("wq reset"); rq += wq; wq = []
+                elif r < 0.3:
+                    ops.append("wq complete")
+                elif r < 0.65:      # reader
                     mine = [b for b, h in held.items() if h == 0]
-                    b = rng.choice(mine) if mine and rng.random() < 0.7 else (rng.randrange(0, nb + 1) if rng.random() < 0.2 else 0)
-                    ops.append("wq rupd in=%d out=%d" % (b, rng.random() < 0.7))
-                    held.pop(b, None)
-                else:
+                    b = rng.choice(mine) if mine and rng.random() < 0.75 else 0
+                    wo = 1 if (rq and rng.random() < 0.7) else (0 if valid else 1)
+                    if not valid and nb and rng.random() < 0.5: b = rng.randrange(1, nb + 1)
+                    ops.append("wq rupd in=%d out=%d" % (b, wo))
+                    blocks = wo and not rq
+                    ok = (b == 0 or held.get(b) == 0) and not blocks and not (b and len(wq) >= size)
+                    if ok:
+                        if b: del held[b]; wq.append(b)
+                        if wo: held[rq.pop(0)] = 0
+                else:               # a worker
                     w = rng.randrange(1, 4)
                     mine = [b for b, h in held.items() if h == w]
-                    b = rng.choice(mine) if mine and rng.random() < 0.8 else (rng.randrange(0, nb + 1) if rng.random() < 0.15 else 0)
-                    ops.append("wq wupd w=%d in=%d out=%d" % (w, b, rng.random() < 0.7))
-                    held.pop(b, None)
-                # optimistic bookkeeping: any block may now be anywhere; refresh guesses at random
-                if nb and rng.random() < 0.6:
-                    held[rng.randrange(1, nb + 1)] = rng.randrange(0, 4)
+                    b = rng.choice(mine) if mine and rng.random() < 0.8 else 0
+                    wo = 1 if (wq and rng.random() < 0.7) else (0 if valid else 1)
+                    if not valid and nb and rng.random() < 0.5: b = rng.randrange(1, nb + 1)
+                    ops.append("wq wupd w=%d in=%d out=%d" % (w, b, wo))
+                    blocks = wo and not wq
+                    ok = (b == 0 or held.get(b) == w) and not blocks and not (b and len(rq) >= size)
+                    if ok:
+                        if b: del held[b]; rq.append(b)
+                        if wo: held[wq.pop(0)] = w
             stats["wq_seq_ops"] += len(ops)
             out.append({"name": "wqseq%d" % c, "ops": ops, "sticky": 1})
         # --- threaded queue runs
@@ -384,15 +400,27 @@ class C12(Prop):
                     if r["inplace"] != "same" or len(ps) > max(1, (len(codes) + 5) // 6) or any(((p >> 31) & 1) != (i == len(ps) - 1) for i, p in enumerate(ps)):
                         return Failure("monitor", "pack: in-place result differs / too many packets / EOD bit misplaced: %r -> %r" % (op[:200], l[:200]))
             elif w[0] == "wq":
-                if w[1] == "create": size, ninit = int(a["size"]), 0
-                if w[1] == "init": ninit += 1
+                if w[1] == "create": size, ninit, inited, mine = int(a["size"]), 0, [], []
+                m = re.match(r"(\S+)(?: b=(\d+))? \| (-?\d+) (-?\d+) (-?\d+) (\S+) (\S+)$", l)
+                if not m: continue
+                st = m.group(1)
+                if w[1] == "init":
+                    ninit += 1
+                    if st == "ok": inited.append(int(a["b"]))
                 if ninit > size: continue        # more blocks than the queue size: outside the caller's contract (model and code still must agree)
                 if l.startswith("ok b=0"):
                     return Failure("monitor", "queue handed out NULL with eslOK: %r" % l)
-                m = re.match(r"\S+(?: b=\d+)? \| (-?\d+) (-?\d+) (-?\d+) (\S+) (\S+)$", l)
-                if m:
-                    if not (0 <= int(m.group(1)) <= size and 0 <= int(m.group(2)) <= size and int(m.group(3)) == 0) or ",0" in "," + m.group(4) or ",0" in "," + m.group(5):
-                        return Failure("monitor", "queue counters out of range / NULL queued / pendingWorkers non-zero with no worker inside: %r" % l)
+                if st == "ok" and w[1] in ("rupd", "wupd") and a.get("in", "0") != "0" and int(a["in"]) in mine: mine.remove(int(a["in"]))
+                if st == "ok" and m.group(2): mine.append(int(m.group(2)))
+                rc, wc, pend = int(m.group(3)), int(m.group(4)), int(m.group(5))
+                rl = [int(x) for x in m.group(6).split(",")] if m.group(6) != "-" else []
+                wl = [int(x) for x in m.group(7).split(",")] if m.group(7) != "-" else []
+                if not (0 <= rc <= size and 0 <= wc <= size and pend == 0) or 0 in rl or 0 in wl or len(rl) != rc or len(wl) != wc:
+                    return Failure("monitor", "queue counters out of range / NULL queued / pendingWorkers non-zero with no worker inside: %r" % l)
+                if sorted(rl + wl + mine) != sorted(inited):
+                    return Failure("monitor", "blocks not conserved: handed in %r, now queued %r + %r, held by threads %r (after %r)" % (sorted(inited), rl, wl, sorted(mine), op))
+                if w[1] == "reset" and st == "ok" and wc != 0:
+                    return Failure("monitor", "Reset left %d block(s) in the worker queue: %r" % (wc, l))
             elif w[0] == "wqrun":
                 want = "ok items=%s processed=%s stops=%s order=fifo final=%s,0,0 removed=%s" % (a["items"], a["items"], a["workers"], a["blocks"], a["blocks"])
                 if self.canonical(l) != want:
